@@ -30,7 +30,22 @@ impl P09 {
 
     /// generations whose server side must be released: client fully closed, nothing owed
     fn must_be_reaped(sim: &Sim) -> Vec<usize> {
-        (0..sim.gens.len()).filter(|gi| sim.gens[*gi].client_closed && !sim.owed(&sim.gens[*gi]) && !sim.outstanding.iter().any(|o| o.gen_idx == Some(*gi))).collect()
+        (0..sim.gens.len())
+            .filter(|gi| {
+                let g = &sim.gens[*gi];
+                // either the client is gone, or it shut down reading and the application supplied a
+                // response afterwards (the write of that response can only fail): it can no longer be written to
+                // (observable by the server only if its socket is writable, i.e. the write is actually attempted)
+                let attempted_after_shutdown = g.shut_rd_step.map(|s| g.supplied_steps.iter().any(|t| *t > s)).unwrap_or(false)
+                    && sim.server_side_sockets().iter().filter(|(_, x)| *x == Some(*gi)).all(|(fd, _)| {
+                        let mut p = libc::pollfd { fd: *fd, events: libc::POLLOUT, revents: 0 };
+                        // SAFETY: zero-timeout poll on one descriptor of this process.
+                        unsafe { libc::poll(&mut p, 1, 0) > 0 && (p.revents & libc::POLLOUT) != 0 }
+                    });
+                let unwritable = g.client_closed || attempted_after_shutdown;
+                unwritable && !sim.owed(g) && !sim.outstanding.iter().any(|o| o.gen_idx == Some(*gi))
+            })
+            .collect()
     }
 
     fn reap_check(&mut self, ctx: &mut Ctx, sim: &mut Sim, polled: bool) -> Option<(String, String)> {
@@ -53,7 +68,7 @@ impl P09 {
                 let g = &sim.gens[gi];
                 return Some((
                     "dead-connection-not-released".into(),
-                    format!("c{}g{} closed at step {:?} and all {} requests yielded from it are answered, but its server-side socket is still open after {} further polling calls", g.client, g.gen, g.close_step, g.yielded.len(), *n),
+                    format!("c{}g{} can no longer be written to (closed at step {:?}, shutdown(RD) at step {:?}) and all {} requests yielded from it are answered, but its server-side socket is still open after {} further polling calls", g.client, g.gen, g.close_step, g.shut_rd_step, g.yielded.len(), *n),
                 ));
             }
         }
